@@ -233,7 +233,7 @@ func (mc *c16Machine) checkConflicts(t *rapid.T, reps int) {
 	docs := []pair{{"psa-profile", P1Name, "eat-profile", P2Name}}
 	for _, n := range c16DynNames {
 		switch mc.reg[n] {
-		case "ext-p2", "two-embedded-p2", "label-then-p2":
+		case "ext-p2", "two-embedded-p2", "label-then-p2", "both-keys-p2":
 			docs = append(docs, pair{"eat-profile", n, "psa-profile", P1Name})
 		case "ext-p1":
 			docs = append(docs, pair{"psa-profile", n, "eat-profile", P2Name})
@@ -272,7 +272,7 @@ func (mc *c16Machine) checkConflicts(t *rapid.T, reps int) {
 	}
 	for _, n := range c16DynNames {
 		switch mc.reg[n] {
-		case "ext-p2", "two-embedded-p2", "label-then-p2":
+		case "ext-p2", "two-embedded-p2", "label-then-p2", "both-keys-p2":
 			lones = append(lones, lone{"psa-profile", n})
 			if hasOwnTag {
 				lones = append(lones, lone{"x-profile", n})
@@ -465,7 +465,7 @@ func c16Run(t *rapid.T, st *Stats) {
 				continue
 			}
 			name := rapid.SampledFrom(free).Draw(t, "name")
-			shape := rapid.SampledFrom([]string{"ext-p2", "ext-p1", "own-tag", "two-embedded-p2", "label-then-p2"}).Draw(t, "shape")
+			shape := rapid.SampledFrom([]string{"ext-p2", "ext-p1", "own-tag", "two-embedded-p2", "label-then-p2", "both-keys-p2"}).Draw(t, "shape")
 			kind := rapid.IntRange(0, 3).Draw(t, "profile.kind")
 			mc.log("Register(%s as %s, %T)", name[len(name)-5:], shape, c16Profile(name, shape, kind))
 			if err, pmsg := c16Register(c16Profile(name, shape, kind)); err != nil || pmsg != "" {
@@ -523,7 +523,7 @@ func c16Run(t *rapid.T, st *Stats) {
 			}
 			sortStrings(pool)
 			name := rapid.SampledFrom(pool).Draw(t, "name")
-			shape := rapid.SampledFrom([]string{"ext-p2", "ext-p1", "own-tag", "two-embedded-p2", "label-then-p2"}).Draw(t, "shape")
+			shape := rapid.SampledFrom([]string{"ext-p2", "ext-p1", "own-tag", "two-embedded-p2", "label-then-p2", "both-keys-p2"}).Draw(t, "shape")
 			// the same kind of IProfile value as the first registration of
 			// that name used (same Go type), or another one
 			kind := rapid.IntRange(0, 3).Draw(t, "profile.kind")
